@@ -61,8 +61,27 @@ def cause(mol, u, v, kind):
     # the known defect concerns TERMINATION edges out of a listed descriptor (and listed end groups reached by stochastic edges);
     # listed weights between repeat units are compared exactly
     if listed and (kind in ("termination", "stochastic+termination") or (kind == "stochastic" and rv == "end")):
-        return "listed-source"
+        return f"listed-source:{ru}->{rv}"
     return f"{ru}->{rv}" + ("" if eu == ev else ":next-element")
+
+
+def listed_entry(mol, e):
+    """for an edge of the specification out of a listed descriptor: 'entry-positive' / 'entry-zero' - the listed weight towards the target descriptor"""
+    toks = mol.tokens()
+    try:
+        st, sd = e["src"]
+        dt, dd = e["dst"]
+        src = toks[st - 1].descs[sd - 1]
+        if src.tr is None:
+            return ""
+        for el in mol.elems:
+            if isinstance(el, Sto) and any(t is toks[st - 1] for t in el.rep + el.end):
+                alld = [(t, k) for t in el.rep + el.end for k in range(len(t.descs))]
+                j = [i for i, (t, k) in enumerate(alld) if t is toks[dt - 1] and k == dd - 1][0]
+                return "entry-positive" if j < len(src.tr) and src.tr[j] > 0 else "entry-zero"
+    except Exception:
+        pass
+    return ""
 
 
 EXPLICIT_H = False
@@ -71,7 +90,7 @@ EXPLICIT_H = False
 def _key(what, kind, c):
     if EXPLICIT_H:
         return "C17:explicit-hydrogen-inside-token-shifts-descriptor-atoms"
-    return "C17:listed-source-termination-edges" if c == "listed-source" else f"C17:{what}:{kind}:{c}"
+    return f"C17:{what}:{kind}:{c}"
 
 
 def run(tier):
@@ -132,11 +151,15 @@ def run(tier):
                 if want_nodes[n] != got_nodes[n]:
                     v.violation("C17:node-attributes", f"{text}: node {n} has (Z, charge, aromatic) = {got_nodes[n]}, the token's atom is {want_nodes[n]}", {"instance": text})
                     break
-        want, free = {}, set()
+        want, free, entry = {}, set(), {}
         for e in graph["edges"]:
             key = (e["u"], e["v"], e["kind"], e["ord"])
             if e["w"] == -1:
                 free.add(key)
+                # the listed weight towards this end group (several descriptor pairs may share the atoms: positive if any is)
+                le = listed_entry(m, e)
+                if entry.get(key) != "entry-positive":
+                    entry[key] = le
                 continue
             if e["kind"] != "static" and e["w"] == 0:
                 continue
@@ -148,13 +171,18 @@ def run(tier):
         if len(samples) < 3 and len(want) > 10:
             samples.append({"instance": text, "nodes": len(want_nodes), "edges_in_model": sum(len(x) for x in want.values()),
                             "edges_in_implementation": sum(len(x) for x in got.values())})
-        for key in sorted(set(want) | set(got), key=str):
+        for key in sorted(set(want) | set(got) | free, key=str):
             a, b, kind, o = key
             c = cause(m, a, b, kind)
             ww = sorted(float(x) for x in want.get(key, []))
             gw = sorted(got.get(key, []))
             if key in free and key not in want:
-                continue          # admissible, weight not prescribed
+                # a termination edge repeat unit -> end group out of a listed descriptor: it has to exist ("none of these is missing"),
+                # its weight is not prescribed (capping uses the end groups' weights, a listed entry its own)
+                if not gw:
+                    v.violation(_key("missing-edge", kind, c + ":" + entry.get(key, "")), f"{text}: no {kind} edge {a}->{b} (order {o}) from a listed descriptor to a compatible end group "
+                                f"({entry.get(key, '')}); edges between these atoms: {[k for k in got if k[0] == a and k[1] == b]}", {"instance": text})
+                continue
             if not gw:
                 alt = [k for k in got if k[0] == a and k[1] == b]
                 v.violation(_key("missing-edge", kind, c), f"{text}: no {kind} edge {a}->{b} (order {o}, weights {ww}); edges between these atoms: {alt}", {"instance": text})
